@@ -92,22 +92,70 @@ Print Assumptions regex_matcher_meets_candidate_contract.
       Core::is_line_by_line_fast selects — equals the grep reference whose test "line matches" is
       "the final HIR has a match in the line's content (terminator removed)".  Props/C03.v reads
       that reference declaratively (results_delivered / nothing_else_delivered: a line is delivered
-      as a match iff its content matches xor invert).  Remaining hypotheses: span_ok (regex engine,
-      see 6) and "the fast-line literals contain no line feed" (true of the code because the
-      stripped HIR has no leaf that can produce "\n"; not proved here, checked by the C11 oracle). *)
+      as a match iff its content matches xor invert).  The only non-structural hypothesis left is
+      span_ok (the regex engine, see 6): that the fast-line literals are non-empty and contain no
+      line feed is proved (is_good; strip_ascii_leaf_free + fast_line_literals_free: a stripped HIR
+      has no leaf producing "\n" and the extractor only rearranges leaf bytes). *)
 Theorem c01_lines_reported_iff_content_matches :
   forall norm, norm_ok norm ->
-  forall rc tr final acc lits span fa cfg s,
+  forall rc tr final acc span fa cfg s,
     build norm rc tr = inl (final, Some (RTByte 10)) ->
     local_looks final = true ->
-    fast_line_literals (inner_literals rc acc final) = lits ->
-    (forall ls l, lits = Some ls -> In l ls -> nolf l) ->
     span_ok final span ->
     c_lt cfg = LTByte 10 -> c_binary cfg = BNone ->
-    slice_by_line_run cfg (regex_line_matcher final (Some (RTByte 10)) lits span fa) (fun _ => Continue) s
+    slice_by_line_run cfg (regex_line_matcher final (Some (RTByte 10))
+                             (fast_line_literals (inner_literals rc acc final)) span fa) (fun _ => Continue) s
     = RunOk (grep_ref cfg (is_match_sem final) s).
 Proof. exact c01_slice_run_eq_ref_proof. Qed.
 Print Assumptions c01_lines_reported_iff_content_matches.
+
+(* 8. The same with the CRLF terminator (--crlf), after the D1/D9 repairs.  Lines end at "\n"; the
+      content drops that "\n" and a "\r" right before it.  Local look-around is now the CRLF line
+      anchors (what `^`/`$` become under --crlf) and the ASCII word assertions; locality holds at a
+      content region followed by the end of the buffer, by "\r\n", or by a bare "\n" not preceded
+      by "\r" — exactly what without_terminator leaves. *)
+Theorem line_locality_crlf : forall h buf a b i j,
+  local_looks_crlf h = true ->
+  a <= b <= length buf ->
+  (a = 0 \/ byte_at buf (a - 1) = 10%N) ->
+  (b = length buf \/ (byte_at buf b = 13%N /\ b < length buf) \/
+   (byte_at buf b = 10%N /\ b < length buf /\ (b = a \/ byte_at buf (b - 1) <> 13%N))) ->
+  i <= j <= b - a ->
+  (Matches h buf (a + i) (a + j) <-> Matches h (sub buf a b) i j).
+Proof. exact line_locality_crlf_proof. Qed.
+Print Assumptions line_locality_crlf.
+
+(* the candidate contract in CRLF mode: a Confirmed hit is re-verified by the searcher, so the
+   contract only asks that no earlier line matches and that the position lies in a line; nothing
+   about "\r" is needed of the regex beyond what the content test itself says — only that no match
+   contains "\n" *)
+Theorem regex_matcher_meets_candidate_contract_crlf : forall h span lits cfg adv fa s,
+  local_looks_crlf h = true ->
+  (forall buf i j, Matches h buf i j -> forall p, i <= p < j -> byte_at buf p <> 10%N) ->
+  span_ok h span -> lits_ok h lits -> c_lt cfg = LTCrlf ->
+  cand_ok cfg (regex_line_matcher h adv lits span fa) s.
+Proof. exact regex_cand_ok_crlf_proof. Qed.
+Print Assumptions regex_matcher_meets_candidate_contract_crlf.
+
+Theorem c01_lines_reported_iff_content_matches_crlf :
+  forall norm, norm_ok norm ->
+  forall rc tr final acc span fa cfg s,
+    build norm rc tr = inl (final, Some RTCrlf) ->
+    local_looks_crlf final = true ->
+    span_ok final span ->
+    c_lt cfg = LTCrlf -> c_binary cfg = BNone ->
+    slice_by_line_run cfg (regex_line_matcher final (Some RTCrlf)
+                             (fast_line_literals (inner_literals rc acc final)) span fa) (fun _ => Continue) s
+    = RunOk (grep_ref cfg (is_match_sem final) s).
+Proof. exact c01_slice_run_eq_ref_crlf_proof. Qed.
+Print Assumptions c01_lines_reported_iff_content_matches_crlf.
+
+(* the fast-line literals of an accepted pattern never contain the advertised (byte) terminator *)
+Theorem literals_free_of_terminator : forall norm rc tr final b acc lits,
+  (b <= 127)%N -> build norm rc tr = inl (final, Some (RTByte b)) ->
+  fast_line_literals (inner_literals rc acc final) = Some lits -> forall l, In l lits -> ~ In b l.
+Proof. exact literals_free_of_terminator_proof. Qed.
+Print Assumptions literals_free_of_terminator.
 
 (* the "line matches" test of that reference is the declarative relation *)
 Theorem content_test_is_matches : forall h c, is_match_sem h c = true <-> exists i j, Matches h c i j.
@@ -178,6 +226,17 @@ Example c01_hypotheses_example :
   build (fun h => h) rc tr = inl (tr, Some (RTByte 10)) /\ local_looks tr = true /\
   fast_line_literals (inner_literals rc false tr) = Some [[102; 111; 111]%N] /\
   sem_span tr [120; 10; 97; 102; 111; 111; 10]%N = Some (2, 6).
+Proof. vm_compute. repeat split. Qed.
+
+(* `a\s*$` under --crlf: \s loses \r and \n, `$` is the CRLF anchor; accepted with CRLF advertised and
+   local look-around: the hypotheses of theorem 8 hold *)
+Example c01_crlf_hypotheses_example :
+  let rc := {| c_line_terminator := Some RTCrlf; c_ban := Some 0%N; c_crlf := true; c_unicode := true;
+               c_word := false; c_whole_line := false |} in
+  let tr := HConcat [HLit [97]%N; HRep 0 None true (HClassB [(9, 13); (32, 32)]%N); HLook LEndCRLF] in
+  build (fun h => h) rc tr
+    = inl (HConcat [HLit [97]%N; HRep 0 None true (HClassB [(9, 9); (11, 12); (32, 32)]%N); HLook LEndCRLF], Some RTCrlf)
+  /\ local_looks_crlf tr = true.
 Proof. vm_compute. repeat split. Qed.
 
 Check line_locality_partial : forall h buf a b i j,
